@@ -5,6 +5,7 @@
   `frame_general_framed` (Lemmas/FframeGeneral.lean).  The parent from the child list of the parent.
 -/
 import XotModel.Lemmas.FframeGeneralMove
+import XotModel.Lemmas.FframeGeneralMore
 
 namespace XotModel
 open HTree Spec PairAll
@@ -186,7 +187,19 @@ theorem live_of_insertBefore_ok {f : Forest} {r c : Nat} (nd : f.allHandles.Nodu
 /-! ### The general frame -/
 
 /-- **Value and child list.** -/
-theorem frame_general {s : Store} {c : Forest.XCall} (inv : s.forest.Inv) (hf : c.framed = true)
+theorem isElement_of_mapInsert_ok {f : Forest} {k : Forest.MapKind} {e : Nat} {entry : Value}
+    (hok : (f.mapInsert k e entry).2 = .ok) : f.isElement e = true := by
+  cases he : f.isElement e with
+  | true => rfl
+  | false => unfold Forest.mapInsert at hok; simp [he] at hok
+
+theorem isElement_of_mapRemove_ok {f : Forest} {k : Forest.MapKind} {e key : Nat}
+    (hok : (f.mapRemove k e key).2 = .ok) : f.isElement e = true := by
+  cases he : f.isElement e with
+  | true => rfl
+  | false => unfold Forest.mapRemove at hok; simp [he] at hok
+
+theorem frame_general {s : Store} {c : Forest.XCall} (inv : s.forest.Inv) (hw : c.wellKinded) (hf : c.framed = true)
     (hla : c.liveArgs s.forest) (hok : (c.run s).2 = .ok) {h : Nat} (hl : s.forest.isLive h = true)
     (hnw : h ∉ c.writtenParents s.forest) (hnr : h ∉ c.removedHandles s.forest)
     (hnm : h ∉ c.movedSubtree s.forest) :
@@ -229,6 +242,21 @@ theorem frame_general {s : Store} {c : Forest.XCall} (inv : s.forest.Inv) (hf : 
           rw [hg] at this; cases this
         | some t =>
           exact (getFrame_remove inv hg hnw (not_mem_handles_of_subtree hg hnr)).frameAt hl
+      | elementWrap n name =>
+        obtain ⟨t, hg⟩ := Forest.get_of_live (hla n (List.mem_singleton.2 rfl))
+        exact (getFrame_wrap inv hok hg hl (ne_parent_of_not_mem_siteW hnw)
+          (not_mem_handles_of_subtree hg hnm)).frameAt hl
+      | cloneNode n =>
+        obtain ⟨t, hg⟩ := Forest.get_of_live (hla n (List.mem_singleton.2 rfl))
+        exact (getFrame_cloneNode inv hg h).frameAt hl
+      | mapInsert k e entry =>
+        have he := isElement_of_mapInsert_ok hok
+        simp only [Forest.XCall.writtenParents, List.mem_cons, not_or] at hnw
+        exact (getFrame_mapInsert inv he hw hnw.1 hnw.2).frameAt hl
+      | mapRemove k e key =>
+        have he := isElement_of_mapRemove_ok hok
+        simp only [Forest.XCall.writtenParents, List.mem_cons, not_or] at hnw
+        exact (getFrame_mapRemove inv he hnw.1 hnw.2).frameAt hl
       | setElementName n name => exact absurd rfl hs
       | setText n t => exact absurd rfl hs
       | setComment n t => exact absurd rfl hs
